@@ -294,7 +294,8 @@ IAvail(o) == IF kind = "F" THEN fw[o].c - fw[o].n ELSE Avail(io[o].s)       \* a
 IDone(o) == IF kind = "F" THEN fw[o].n ELSE io[o].c                          \* bytes_read()/bytes_written()
 Usable(o) == kind # "F" \/ spl[o] \/ done[o] = 0
 
-Log(o, op, n, x, c) == /\ hist' = Append(hist, [o |-> o, op |-> op, n |-> n, x |-> x, c |-> c])
+Log(o, op, n, x, c) == /\ nops < MaxOps
+                       /\ hist' = Append(hist, [o |-> o, op |-> op, n |-> n, x |-> x, c |-> c])
                        /\ nops' = nops + 1
 
 (* A: a data-moving operation that moved d bytes through o; src = tokens offered by the source
@@ -403,15 +404,23 @@ Commit(o, other) ==
      /\ UNCHANGED <<flat, done, size, cont, spl, memA, dirtyA, outA, fposA, kind, segs0>>
      /\ Log(o, "commit", other, 0, 0)
 
-Next ==
-  /\ nops < MaxOps
-  /\ \E o \in 1..NObj :
-       \/ \E n \in Counts : Read(o, n) \/ ReadObj(o, n) \/ Write(o, n) \/ WriteAll(o, n)
-       \/ \E n \in Counts, c \in Chunks : ReadTo(o, n, c) \/ ReadExactTo(o, n, c) \/ WriteFrom(o, n, c) \/ WriteAllFrom(o, n, c)
-       \/ \E n \in Counts, x \in {0, 1}, c \in Chunks : ReadToAt(o, n, x, c) \/ WriteFromAt(o, n, x, c)
-       \/ \E n \in 0..1, n2 \in Counts : WriteVectored(o, n, n2)
-       \/ \E off \in Counts : SplitAt(o, off)
-       \/ \E other \in 0..NObj : Commit(o, other)
+\* one top-level disjunct per API entry point (TLC reports coverage per disjunct)
+DoRead        == \E o \in 1..NObj, n \in Counts : Read(o, n)
+DoReadObj     == \E o \in 1..NObj, n \in Counts : ReadObj(o, n)
+DoReadTo      == \E o \in 1..NObj, n \in Counts, c \in Chunks : ReadTo(o, n, c)
+DoReadToAt    == \E o \in 1..NObj, n \in Counts, c \in Chunks : ReadToAt(o, n, 1, c)
+DoReadExactTo == \E o \in 1..NObj, n \in Counts, c \in Chunks : ReadExactTo(o, n, c)
+DoWrite       == \E o \in 1..NObj, n \in Counts : Write(o, n)
+DoWriteAll    == \E o \in 1..NObj, n \in Counts : WriteAll(o, n)
+DoWriteVectored == \E o \in 1..NObj, n \in 0..1, n2 \in Counts : WriteVectored(o, n, n2)
+DoWriteFrom   == \E o \in 1..NObj, n \in Counts, c \in Chunks : WriteFrom(o, n, c)
+DoWriteFromAt == \E o \in 1..NObj, n \in Counts, c \in Chunks : WriteFromAt(o, n, 1, c)
+DoWriteAllFrom == \E o \in 1..NObj, n \in Counts, c \in Chunks : WriteAllFrom(o, n, c)
+DoSplitAt     == \E o \in 1..NObj, off \in Counts : SplitAt(o, off)
+DoCommit      == \E o \in 1..NObj, other \in 0..NObj : Commit(o, other)
+Next == \/ DoRead \/ DoReadObj \/ DoReadTo \/ DoReadToAt \/ DoReadExactTo
+        \/ DoWrite \/ DoWriteAll \/ DoWriteVectored \/ DoWriteFrom \/ DoWriteFromAt \/ DoWriteAllFrom
+        \/ DoSplitAt \/ DoCommit
 Spec == Init /\ [][Next]_vars
 
 (* =============================== I => A =============================== *)
